@@ -155,7 +155,11 @@ def extra(case, lines, rot):
             if a[0] != b[0]:
                 bad.append(('reparse_exec_lines', a[0], b[0]))
             if a[1] != b[1]:
-                bad.append(('reparse_wants_modes', a[1], b[1]))
+                # known finding F23: the display leaves out the blank line / prose between two chunks; a ';' in the earlier chunk then
+                # turns the mode of the later chunk's final expression from eval into single when the text is parsed again
+                merged_semi = (len(a[1]) == len(b[1]) and all(x[:2] == y[:2] and (x[2] == y[2] or (x[2], y[2]) == ('eval', 'single')) for x, y in zip(a[1], b[1]))
+                               and any(bl.get('shape') == 'semi' for bl in case['blocks']))
+                bad.append(('reparse_mode_after_merging_a_semicolon_chunk' if merged_semi else 'reparse_wants_modes', a[1], b[1]))
     return bad
 
 
